@@ -7,6 +7,7 @@
 package c25
 
 import (
+	"math/rand"
 	"bufio"
 	"bytes"
 	"fmt"
@@ -41,8 +42,9 @@ type scenario struct {
 	nrun   int
 }
 
-func newScenario(c *mon.Case) *scenario {
-	r := c.Rand
+func newScenario(c *mon.Case) *scenario { return newScenarioRand(c, c.Rand) }
+
+func newScenarioRand(c *mon.Case, r *rand.Rand) *scenario {
 	w := [refstore.NumKinds]int{refstore.OpAdd: 40, refstore.OpDel: 14, refstore.OpAddDir: 22, refstore.OpDelDir: 4,
 		refstore.OpNextSeq: 3, refstore.OpPrev: 3, refstore.OpDirs: 2, refstore.OpList: 2}
 	g := refstore.NewGen(r, w, 3+r.Intn(12))
@@ -73,6 +75,44 @@ func newScenario(c *mon.Case) *scenario {
 
 func (sc *scenario) cleanup() { os.RemoveAll(sc.dir) }
 
+// dbFiles lists the database file and anything created next to it under a
+// derived name (a fixed store might create the file under a temporary name).
+func (sc *scenario) dbFiles() []string {
+	fs, _ := filepath.Glob(sc.db + "*")
+	return fs
+}
+
+func (sc *scenario) removeDB() {
+	for _, f := range sc.dbFiles() {
+		os.Remove(f)
+	}
+}
+
+func (sc *scenario) dbSizes() map[string]int64 {
+	m := map[string]int64{}
+	for _, f := range sc.dbFiles() {
+		if fi, err := os.Stat(f); err == nil {
+			m[filepath.Base(f)] = fi.Size()
+		}
+	}
+	return m
+}
+
+// tearCreationImage simulates a SIGKILL that interrupts bbolt's creation
+// write (one pwrite64 of 4 pages at offset 0): on Linux a fatal signal stops
+// a multi-page write between pages, leaving a prefix. The process has been
+// killed right after that write (at the first fdatasync), so the file that
+// received it holds exactly the 4-page image; it is cut to `pages` pages.
+func (sc *scenario) tearCreationImage(pages int) bool {
+	ps := int64(os.Getpagesize())
+	for _, f := range sc.dbFiles() {
+		if fi, err := os.Stat(f); err == nil && fi.Size() == 4*ps {
+			return os.Truncate(f, int64(pages)*ps) == nil
+		}
+	}
+	return false
+}
+
 // ---------------------------------------------------------------------------
 // running the child
 
@@ -81,11 +121,15 @@ type plan struct {
 	sys   string // inject: system call
 	when  int    // inject: ordinal (per thread)
 	after int    // sigkill: kill when the journal has this many lines
+	torn  int    // >0: after the kill, cut the file that holds bbolt's 4-page creation image down to this many pages
 }
 
 func (p plan) String() string {
 	switch p.kind {
 	case "inject":
+		if p.torn > 0 {
+			return fmt.Sprintf("SIGKILL at %s #%d + creation write cut after %d of 4 pages", p.sys, p.when, p.torn)
+		}
 		return fmt.Sprintf("SIGKILL at %s #%d", p.sys, p.when)
 	case "sigkill":
 		return fmt.Sprintf("SIGKILL after journal line %d", p.after)
@@ -310,7 +354,7 @@ func (o observed) differs(m *refstore.Store) string {
 }
 
 type stats struct {
-	crashes, rolledBack, committedUnacked, betweenOps, duringOpen, completed, secondCrashes, reopenOK int
+	crashes, rolledBack, committedUnacked, betweenOps, duringOpen, completed, secondCrashes, reopenOK, tornApplied, probes int
 	execPer                                                                                           map[string]int
 	landedPer                                                                                         map[string]int
 }
@@ -322,9 +366,10 @@ func newStats() *stats { return &stats{execPer: map[string]int{}, landedPer: map
 // plan (no kill once the plans are used up), and checks the oracle after
 // every round. Returns false after a violation or an inconclusive run.
 func (sc *scenario) crashRun(c *mon.Case, plans []plan, st *stats) bool {
-	os.Remove(sc.db)
+	sc.removeDB()
 	start := 0
 	maxAcked := 0
+	everOpened := false
 	var story []string
 	wit := func(extra map[string]any) map[string]any {
 		w := map[string]any{"rounds": story, "script": opStrings(sc.ops)}
@@ -345,6 +390,38 @@ func (sc *scenario) crashRun(c *mon.Case, plans []plan, st *stats) bool {
 		}
 		j := readJournal(res.ackPath)
 		story = append(story, fmt.Sprintf("round %d: start at op %d, %v -> killed=%v exit=%d opened=%v acks=%d done=%v", round, start, p, res.killed, res.exit, j.opened, len(j.acks), j.done))
+		everOpened = everOpened || j.opened
+		if res.killed && p.torn > 0 {
+			if everOpened || !sc.tearCreationImage(p.torn) {
+				c.Inconclusive("torn:no-creation-image")
+				return false
+			}
+			st.tornApplied++
+		}
+		if res.killed && !everOpened {
+			// The process died while the database was being created. Open it
+			// in a separate process first: a half-created file can make
+			// bbolt fault (SIGBUS), which must not take this worker down.
+			pr := sc.runChild(len(sc.ops), plan{})
+			if pr.harness != "" {
+				c.Inconclusive("harness:probe")
+				return false
+			}
+			sim := ""
+			if p.torn > 0 {
+				sim = "-simulated"
+			}
+			story = append(story, fmt.Sprintf("probe: exit=%d killed=%v %s", pr.exit, pr.killed, lastLine(pr.stderr)))
+			switch {
+			case pr.exit == 4:
+				c.Violation("torn-creation"+sim+":reopen-failed", fmt.Sprintf("the process was killed while the database file was being created (%v); store.NewStore now fails: %s", p, lastLine(pr.stderr)), wit(map[string]any{"file_sizes": sc.dbSizes()}))
+				return false
+			case pr.exit != 0 || pr.killed:
+				c.Violation("torn-creation"+sim+":reopen-crashed", fmt.Sprintf("the process was killed while the database file was being created (%v); a process that opens it now crashes: %s", p, firstPanic(pr.stderr)), wit(map[string]any{"file_sizes": sc.dbSizes(), "stderr": tailStr(pr.stderr, 3000)}))
+				return false
+			}
+			st.probes++
+		}
 		if !res.killed && res.exit != 0 {
 			switch res.exit {
 			case 4:
@@ -537,6 +614,8 @@ func (st *stats) flush(c *mon.Case) {
 	c.Count("second_crashes_in_one_history", st.secondCrashes)
 	c.Count("runs_completed_without_kill", st.completed)
 	c.Count("reopens_ok", st.reopenOK)
+	c.Count("creation_image_cut", st.tornApplied)
+	c.Count("reopen_probes_after_kill_during_creation", st.probes)
 	for k, v := range st.execPer {
 		c.Count("points_executed_"+k, v)
 	}
@@ -549,9 +628,14 @@ func (st *stats) flush(c *mon.Case) {
 // ---------------------------------------------------------------------------
 // phase inject: enumerate with strace, then kill at the enumerated points
 
+const chunks = 4 // crash points of one history are spread over this many cases
+
 func runInject(c *mon.Case) {
-	r := c.Rand
-	sc := newScenario(c)
+	// case = (history, chunk): the history is generated from a generator
+	// that depends on the history number only.
+	hist, chunk := c.I/chunks, c.I%chunks
+	r := rand.New(rand.NewSource(c.Env.Seed*1000003 + int64(hist)*7919 + 17))
+	sc := newScenarioRand(c, r)
 	defer sc.cleanup()
 	if err := writeScript(sc.script, sc.ops); err != nil {
 		c.Inconclusive("harness:script")
@@ -608,9 +692,11 @@ func runInject(c *mon.Case) {
 			}
 		}
 	}
-	c.Count("pass1_db_syscalls_from_other_threads", otherThreads)
-	for _, sys := range crashSyscalls {
-		c.Count("points_enumerated_"+sys, maxPer[sys])
+	if chunk == 0 {
+		c.Count("pass1_db_syscalls_from_other_threads", otherThreads)
+		for _, sys := range crashSyscalls {
+			c.Count("points_enumerated_"+sys, maxPer[sys])
+		}
 	}
 	// Sync discipline seen in the trace: whenever the database file was
 	// written since the previous acknowledgement, the last database call
@@ -632,7 +718,7 @@ func runInject(c *mon.Case) {
 					map[string]any{"journal_line": ackN + 1})
 				return
 			}
-			if wrote {
+			if wrote && chunk == 0 {
 				c.Count("pass1_acks_after_synced_write", 1)
 			}
 			wrote, synced = false, true
@@ -699,7 +785,10 @@ func runInject(c *mon.Case) {
 			pts = append(pts, point{sys, k + 1})
 		}
 	}
-	for _, pt := range pts {
+	for pi, pt := range pts {
+		if pi%chunks != chunk {
+			continue
+		}
 		plans := []plan{{kind: "inject", sys: pt.sys, when: pt.when}}
 		if r.Intn(5) == 0 { // a second crash while continuing
 			if r.Intn(2) == 0 {
@@ -749,10 +838,33 @@ func runSigkill(c *mon.Case) {
 	c.Nontrivial("sigkill", c.I, len(sc.ops), st.crashes)
 }
 
+// ---------------------------------------------------------------------------
+// phase torn: the creation write interrupted between pages
+
+func runTorn(c *mon.Case) {
+	sc := newScenario(c)
+	defer sc.cleanup()
+	if len(sc.ops) > 20 {
+		sc.ops, sc.models, sc.expSeq = sc.ops[:20], sc.models[:21], sc.expSeq[:20]
+	}
+	if err := writeScript(sc.script, sc.ops); err != nil {
+		c.Inconclusive("harness:script")
+		return
+	}
+	st := newStats()
+	defer st.flush(c)
+	for pages := 1; pages <= 3; pages++ {
+		// fdatasync #1 is bbolt's sync right after the creation write
+		// all three cuts are tried even if one of them fails
+		sc.crashRun(c, []plan{{kind: "inject", sys: "fdatasync", when: 1, torn: pages}}, st)
+	}
+	c.Nontrivial("torn", c.I)
+}
+
 func Spec() *mon.Spec {
 	return &mon.Spec{
 		ID: "C25", Level: "fault_enumeration",
-		Rule: "case (phase inject) = one random script of 18..40 (thorough ..58) store operations (AddCmd incl. ~10 KB texts, DelCmd incl. the newest entries, AddDir, DelDir, a few reads) executed by a child process (this binary, GOMAXPROCS=1, main goroutine locked to its thread) that appends 'ack i result' to an O_SYNC journal after every returned operation. Pass 1 runs it under strace -f (pwrite64, fdatasync, fsync, ftruncate, write) and enumerates the write/sync calls per thread; then for every enumerated (syscall, ordinal) (quick: up to 22 pwrite64 + 22 fdatasync + 4 fsync + 4 ftruncate per script, thorough: all) the script is re-run from scratch with strace inject=<syscall>:signal=KILL:when=<ordinal>; every 5th run gets a second kill while continuing. Phase sigkill kills the untraced child from the parent once the journal has j lines (j random), up to 4 times per run. After every kill: store.NewStore must succeed, the complete state (CmdsWithSeq(0,-1), NextCmdSeq, Dirs) must equal the refstore model after acks or acks+1 operations, NextCmdSeq must exceed every acknowledged number; the script is continued in a new child from that prefix, and finally AddCmd on the reopened store must return numbers above everything acknowledged. Pass 1 additionally checks in the trace that every acknowledgement following a database write is preceded by fsync/fdatasync. Non-trivial = a script whose crash runs all finished.",
+		Rule: "case (phase inject) = one random script of 18..40 (thorough ..58) store operations (AddCmd incl. ~10 KB texts, DelCmd incl. the newest entries, AddDir, DelDir, a few reads) executed by a child process (this binary, GOMAXPROCS=1, main goroutine locked to its thread) that appends 'ack i result' to an O_SYNC journal after every returned operation. Pass 1 runs it under strace -f (pwrite64, fdatasync, fsync, ftruncate, write) and enumerates the write/sync calls per thread; then for every enumerated (syscall, ordinal) (quick: up to 22 pwrite64 + 22 fdatasync + 4 fsync + 4 ftruncate per script, thorough: all) the script is re-run from scratch with strace inject=<syscall>:signal=KILL:when=<ordinal>; every 5th run gets a second kill while continuing. Phase sigkill kills the untraced child from the parent once the journal has j lines (j random), up to 4 times per run. After every kill: store.NewStore must succeed, the complete state (CmdsWithSeq(0,-1), NextCmdSeq, Dirs) must equal the refstore model after acks or acks+1 operations, NextCmdSeq must exceed every acknowledged number; the script is continued in a new child from that prefix, and finally AddCmd on the reopened store must return numbers above everything acknowledged. Pass 1 additionally checks in the trace that every acknowledgement following a database write is preceded by fsync/fdatasync. Phase torn simulates a SIGKILL that interrupts bbolt's one 4-page creation write between pages (observed for real in phase sigkill): the child is killed at its first fdatasync (right after that write) and the file that received the write is cut to 1, 2 or 3 pages; the reopen is first tried in a separate process. An inject case covers one quarter of the sampled crash points of one script. Non-trivial = a case whose crash runs all finished.",
 		Assumptions: []string{
 			"kill granularity is the system call: torn page writes and power-loss reordering of unsynced pages are not simulated (that needs a block-level fault injector); the 'ack-before-sync' trace check is the only evidence about power loss",
 			"strace's when=N counts per thread; the child keeps all store calls on one locked thread, calls from other threads are counted in evidence; the oracle does not depend on where exactly the kill landed",
@@ -760,14 +872,15 @@ func Spec() *mon.Spec {
 			"database and journal live on tmpfs (/dev/shm): fsync is cheap there, but the calls are still made and traced",
 		},
 		Phases: []mon.Phase{
-			{Name: "inject", Quick: 32, Thorough: 300, Run: runInject, Batch: 1, Timeout: 600 * time.Second},
+			{Name: "inject", Quick: 32 * chunks, Thorough: 300 * chunks, Run: runInject, Batch: 1, Timeout: 600 * time.Second},
 			{Name: "sigkill", Quick: 32, Thorough: 300, Run: runSigkill, Batch: 1, Timeout: 600 * time.Second},
+			{Name: "torn", Quick: 4, Thorough: 16, Run: runTorn, Batch: 1, Timeout: 600 * time.Second},
 		},
 		Floors: map[string]int{
 			"crashes": 500, "points_enumerated_pwrite64": 500, "points_enumerated_fdatasync": 500, "points_executed_pwrite64": 150, "points_executed_fdatasync": 150,
 			"points_killed_pwrite64": 150, "points_killed_fdatasync": 150,
 			"crashes_rolled_back_in_flight_op": 100, "crashes_committed_but_unacknowledged_op": 30, "crashes_between_data_write_and_meta_write": 50,
-			"crashes_during_open_or_create": 5, "second_crashes_in_one_history": 30, "pass1_acks_after_synced_write": 300, "sigkill_runs": 100, "distinct_nontrivial": 20,
+			"crashes_during_open_or_create": 5, "second_crashes_in_one_history": 30, "pass1_acks_after_synced_write": 300, "sigkill_runs": 100, "distinct_nontrivial": 40,
 		},
 	}
 }
